@@ -241,6 +241,7 @@ impl Authentication for AuthenticationBuiltin {
     let random_bytes3 = self.generate_random_32_bytes()?;
 
     let self_remote_info = RemoteParticipantInfo {
+      guid_prefix: adjusted_guid.prefix,
       identity_certificate_opt: None,
       signed_permissions_xml_opt: None,
       handshake: HandshakeInfo {
@@ -376,7 +377,7 @@ impl Authentication for AuthenticationBuiltin {
     let remote_identity_handle = self.get_new_identity_handle();
 
     let remote_info = RemoteParticipantInfo {
-      //guid_prefix: remote_participant_guidp,
+      guid_prefix: remote_participant_guidp,
       //identity_token: remote_identity_token,
       identity_certificate_opt: None,   // Not yet available
       signed_permissions_xml_opt: None, // Not yet available
@@ -550,6 +551,16 @@ impl Authentication for AuthenticationBuiltin {
     validate_remote_guid(remote_pdata.participant_guid, &cert1).map_err(|e| {
       create_security_error_and_log!("Remote GUID does not comply with the spec: {e}")
     })?;
+
+    // The GUID in c.pdata is now bound to the certificate. It must also be the GUID of
+    // the participant we are actually talking to, or any CA-issued identity could
+    // complete a handshake under somebody else's GUID.
+    if remote_pdata.participant_guid.prefix != remote_info.guid_prefix {
+      return Err(create_security_error_and_log!(
+        "Participant GUID in the handshake request does not belong to the remote participant {:?}",
+        remote_info.guid_prefix
+      ));
+    }
 
     // Check which key agreement algorithm the remote has chosen & generate our own
     // key pair
@@ -740,6 +751,15 @@ impl Authentication for AuthenticationBuiltin {
         validate_remote_guid(remote_pdata.participant_guid, &cert2).map_err(|e| {
           create_security_error_and_log!("Remote GUID does not comply with the spec: {e}")
         })?;
+
+        // See begin_handshake_reply: the GUID must be that of the participant we sent
+        // our request to.
+        if remote_pdata.participant_guid.prefix != remote_info.guid_prefix {
+          return Err(create_security_error_and_log!(
+            "Participant GUID in the handshake reply does not belong to the remote participant {:?}",
+            remote_info.guid_prefix
+          ));
+        }
 
         // TODO: verify ocsp_status / status of IdentityCredential
 
